@@ -142,6 +142,17 @@ func cmdCheck(args []string) {
 	sort.Strings(keys)
 	for _, k := range keys {
 		rep := p.VerifyFunc(k)
+		if kinds := propKinds[prop]; kinds != nil {
+			// this property is decided by a subset of the obligation kinds of these functions (the
+			// others belong to the properties the functions are also listed under)
+			var keep []*Obligation
+			for _, o := range rep.Obls {
+				if kinds[o.Kind] {
+					keep = append(keep, o)
+				}
+			}
+			rep.Obls = keep
+		}
 		res.Reports = append(res.Reports, rep)
 		res.Obls = append(res.Obls, rep.Obls...)
 		if rep.Err != "" {
